@@ -107,6 +107,8 @@ def _extract_secrets(
                 )
             if key in (Secrets.LEASE_CANCEL, Secrets.LEASE_RENEW) and len(value) != 32:
                 raise ClientSecretsException("Lease secrets must be 32 bytes long")
+            if key == Secrets.WRITE_ENABLER and len(value) != 32:
+                raise ClientSecretsException("Write enabler must be 32 bytes long")
             result[key] = value
     except (ValueError, KeyError):
         raise ClientSecretsException("Bad header value(s): {}".format(header_values))
